@@ -5,7 +5,7 @@ V = os.path.dirname(os.path.dirname(os.path.abspath(__file__)))
 ALL = [f"C{i:02d}" for i in range(1, 21)]
 
 CHECKS = {
- "C09": dict(engine="simfrz", category="fault_enumeration", design_ref="§8 C09, §5 E-FRZ",
+ "C09": dict(engine="simfrz", category="fault_enumeration", design_ref="§6 C09, §4 simfrz",
    technique="deterministic simulation of freezer file histories with injected crash states (enumerated cut rectangles, failpoint deaths) against a vector model",
    text="Seeded append/truncate/reopen/retrieve histories run against the real FreezerFiles/Freezer code on tmpfs with a vector-of-items model; crash states are constructed by cutting the head data file and INDEX independently; for seeded short histories EVERY (head length, INDEX length) pair of the legal rectangle plus missing/empty new head is tried (fault enumeration), random cuts and failpoint deaths inside append beyond that. Right level: the crash-state space per history is finite and small, so it is enumerated; histories are sampled.",
    note="Process-death crash model (completed writes survive, unsynced tail may be cut, rolled-over files intact); std::fs, snap and tmpfs semantics trusted; histories sampled, not enumerated."),
@@ -15,28 +15,28 @@ NODE_NOTE = "Trusted base: ckb-types builders/views/hashes, RocksDB, the referen
 def node(design, technique, text):
     return dict(engine="simnode", category="exploration", design_ref=design, technique=technique, text=text, note=NODE_NOTE)
 CHECKS.update({
- "C01": node("§8 C01, §5 E-NODE", "deterministic simulation of block delivery order/duplication/orphans and chain-stage interleaving against a max-work-valid-chain reference model",
+ "C01": node("§6 C01, §4 simnode", "deterministic simulation of block delivery order/duplication/orphans and chain-stage interleaving against a max-work-valid-chain reference model",
    "Seeded random block trees (forks, competing branches, clock-driven uneven difficulty, single-rule-invalid blocks anywhere) are delivered in seeded orders with duplicates to the REAL chain stages (insert/preload/verify/orphan cleaner) stepped by the simulator; the final tip must carry the maximal work of any fully valid chain formable from the delivered set, the tip history must have strictly increasing work, every connectable block must be connected. Node panics are violations. Exploration is the right level: the space of trees x permutations x interleavings is unbounded; each run is exactly replayable from its scenario file."),
- "C02": node("§8 C02, §5 E-NODE", "deterministic simulation of reorg histories with snapshot readers and restarts; full column-by-column comparison with a replay model",
+ "C02": node("§6 C02, §4 simnode", "deterministic simulation of reorg histories with snapshot readers and restarts; full column-by-column comparison with a replay model",
    "At every quiescent point, after every restart and inside every snapshot captured at a simulator-chosen step, every row of the canonical-chain columns (cells, cell data, tx info, index, uncles, epochs, block ext, MMR roots) is compared with the model's replay of the stored tip's chain."),
- "C03": node("§8 C03, §5 E-NODE", "deterministic simulation: model-built valid blocks and single-rule mutants delivered in random histories; refusal atomicity checked against the replay model",
-   "Blocks valid by construction (independent builder) must be attached when heaviest; blocks with exactly one named rule violation (DAO, target, epoch, reward, cellbase, extension/chain root) anywhere in the tree must never be attached or marked verified, and a refused reorganisation must leave the stored state equal to the old tip's replay. Header-only rules (timestamp bounds, PoW) are outside this check."),
- "C06": node("§8 C06, §5 E-NODE", "deterministic simulation with an independent issuance model (reward split, first-proposer rule, DAO accumulation) as block builder and monitor",
+ "C03": node("§6 C03, §4 simnode", "deterministic simulation: model-built valid blocks (incl. real proof-of-work nonces mined by the model and boundary timestamps against the simulated node clock) and single-rule mutants delivered in random histories through the pipeline header check (as submit_block runs it) then chain stages; refusal atomicity checked against the replay model",
+   "Blocks valid by construction (independent builder) must pass the header stage at the node's simulated clock and be attached when heaviest; blocks with exactly one named rule violation (header: timestamp at the past median, number, malformed epoch, nonce above target; structure: cellbase shape, merkle commitments, duplicates; DAO, target, epoch, reward, extension/chain root; seven uncle rules; two-phase commit, time locks, rule-breaking transactions) anywhere in the tree must never be attached or marked verified, header-only mutants must be refused by the header stage, and a refused reorganisation must leave the stored state equal to the old tip's replay. Two genuine panics found and fixed (c8f575a, c75ef89)."),
+ "C06": node("§6 C06, §4 simnode", "deterministic simulation with an independent issuance model (reward split, first-proposer rule, DAO accumulation) as block builder and monitor",
    "Every cellbase and DAO field is computed by the model from the property text; the node must accept exactly those blocks and reject +-1 mutants; header U must equal the occupied capacity of the stored live cells; every main-chain cellbase must equal the property-text reward. One genuine deviation (proposer share for target block 1) is a recorded known finding."),
  "C19": node("§6 C19, §4 simnode chain mode", "deterministic simulation; from-scratch MMR (own RFC 0044 merge) as block builder and monitor across reorgs and restarts; membership proofs generated from the node's stored MMR verified against the model; block-filter builder run as simulator-placed passes and compared with model-derived filters and hash chain",
    "Every block on every fork commits to the naive MMR root over its ancestors (equality enforced through the node's own verifier on model-built blocks), wrong roots are rejected, after every reorg/restart the node's chain_root_mmr roots equal the naive ones, proofs for seeded position sets verify against the model's root and leaves and against nothing else, and after every filter-builder pass (lagging by blocks, reorgs, restarts) every main-chain block's filter matches exactly its scripts and the filter hashes chain."),
- "C20": node("§8 C20, §5 E-NODE + process restarts", "deterministic simulation of reorgs relative to the proposal window with clean restarts (new OS process) at arbitrary operation indexes",
+ "C20": node("§6 C20, §4 simnode + process restarts", "deterministic simulation of reorgs relative to the proposal window with clean restarts (new OS process) at arbitrary operation indexes",
    "After every tip change and after every restart (start-up reconstruction path) the snapshot's proposal view {set, gap} must equal the union over the model's window, for windows 1..3 / 2..11, chains shorter than the window and reorgs deeper than it."),
 })
-CHECKS["C07"] = node("§8 C07 (partial claim), §5 E-NODE long-epoch family", "deterministic simulation of long-epoch chains mined on a skewed/stalling/jumping simulated clock with varying uncle rates; node's epoch transitions vs exact big-rational re-computation plus issuance and conversion monitors",
-   "PARTIAL: for every epoch transition reached by simulated histories (300-1800 block epochs, clock regimes from 1 ms to days per block, uncle rates 0-20%, halvings) the node's next-epoch length, hash-rate estimate, difficulty/compact target and rewards must equal an independent exact-arithmetic evaluation, stay within the consensus bounds and the x2 dampening, epoch fields must be gap-free, per-epoch reward sums must equal scheduled issuance, and compact/target/difficulty conversions must agree with an independent implementation. Not decided: the same over all u64/U256 inputs and all compact encodings, and PoW acceptance - those are pure functions without schedule, clock or fault, outside this technique.")
-CHECKS["C14"] = node("§8 C14, §5 E-NODE twins", "deterministic simulation run on twin nodes that differ only in cache configuration (store read caches default/0/1/mixed, verification cache warm or emptied before every verify step); differential comparison of every verdict and query answer, plus failing-witness twins of cached transactions",
+CHECKS["C07"] = node("§6 C07 (partial claim), §4 simnode long-epoch family", "deterministic simulation of long-epoch chains mined on a skewed/stalling/jumping simulated clock with varying uncle rates; node's epoch transitions vs exact big-rational re-computation plus issuance and conversion monitors",
+   "PARTIAL: (proof of work) under the real Eaglesong / EaglesongBlake2b engines the header stage must accept exactly the nonces the model's own reading of the rule accepts, and blocks or uncles whose only flaw is a nonce above the target, or a target other than the epoch's, must never be attached; (epochs) for every epoch transition reached by simulated histories (300-1800 block epochs, clock regimes from 1 ms to days per block, uncle rates 0-20%, halvings) the node's next-epoch length, hash-rate estimate, difficulty/compact target and rewards must equal an independent exact-arithmetic evaluation, stay within the consensus bounds and the x2 dampening, epoch fields must be gap-free, per-epoch reward sums must equal scheduled issuance, and compact/target/difficulty conversions must agree with an independent implementation. Not decided: the same over all u64/U256 inputs and all compact encodings (pure functions without schedule, clock or fault, outside this technique); a header hash exactly equal to its target is not reachable by nonce search.")
+CHECKS["C14"] = node("§6 C14, §4 simnode twins", "deterministic simulation run on twin nodes that differ only in cache configuration (store read caches default/0/1/mixed, verification cache warm or emptied before every verify step); differential comparison of every verdict and query answer, plus failing-witness twins of cached transactions",
    "Each seeded scenario is executed by four twin nodes; all block verdicts, BlockExt records (minus received_at) and the answers of the chain queries for every block ever delivered - including invalid blocks that were stored and deleted - must be identical. Scenarios plant an otherwise identical sibling of a verified block whose committed transaction carries a failing witness under the same tx hash and make that branch heavier, so a cache keyed by anything less than the witness hash, or a skipped script run on a hit, attaches an invalid block. Found (as C01/C14) the stale StoreCache after delete_block, fixed in c00ffd0.")
-CHECKS["C10"] = dict(engine="simnode", category="exploration", design_ref="§8 C10, §5 E-NODE with the freezer on + E-CRASH",
+CHECKS["C10"] = dict(engine="simnode", category="exploration", design_ref="§6 C10, §4 simnode with the freezer on + E-CRASH",
    technique="deterministic simulation of block-import histories with freeze passes at arbitrary points on the real node (real ckb-freezer files), every chain query checked against the reference model after every pass; freezer-on/off twin runs; process death at every write and freezer fail point inside every pass, with seeded loss of the un-fsynced freezer tail",
    text="Seeded histories over toy epochs (forks at heights that later get frozen, uncles, proposals, extensions, orphans, duplicates, restarts) with explicit freeze passes; after every pass / restart / at the end every main-chain block and each of its parts, every transaction with its location, ancestor lookups and the full live-cell state must read exactly as the model built them, Freezer::number is monotone, at or below the last block of epoch(tip)-2, and side-chain blocks at frozen heights answer None or themselves. Twin runs with the freezer off must give identical answers. For sampled histories every crash point inside every pass is enumerated (RocksDB writes of the wipe-out before/after, freezer write-head / write-index sites, with and without losing the un-fsynced tail). Five genuine defects found and fixed (8b5c6e5, c24557f, ba9dd17, bc0a2f4, b0dc427).",
    note=NODE_NOTE + " Envelope: reorganisations reaching below the freezer's height (> 2 epochs deep) are not generated (the freezer cannot undo them by design).")
-CHECKS["C08"] = dict(engine="simnode", category="fault_enumeration", design_ref="§8 C08, §5 E-CRASH",
+CHECKS["C08"] = dict(engine="simnode", category="fault_enumeration", design_ref="§6 C08, §4 simnode segments",
    technique="deterministic simulation with process death injected at every durable write of a seeded import history (restart = new OS process on the same directories), checked against the replay model",
    text="For each seeded block-import history a fault-free run counts the durable writes W; then EVERY write index 1..W x {before, after} is tried as a process death (libc::_exit in the ckb-db write hook), plus seeded double crashes during recovery. After each restart: reopen succeeds, the store equals the model's replay of the tip it reports, work never decreases, stored-unverified blocks are picked up, the proposal view matches; after the remaining deliveries the node reaches the heaviest valid chain and the never-crashed state. Fault enumeration is right because the crash-point space of one history is finite (W writes); histories are sampled.",
    note=NODE_NOTE + " Crash model: process death, not power loss below the OS page cache.")
@@ -44,37 +44,37 @@ POOL_NOTE = NODE_NOTE + " Pool task mode: the tx-pool service loops are replaced
 def pool(design, technique, text):
     return dict(engine="simnode", category="exploration", design_ref=design, technique=technique, text=text, note=POOL_NOTE)
 CHECKS.update({
- "C11": pool("§8 C11, §5 E-NODE pool task mode", "deterministic simulation of pool operation histories (submit/RBF/remove/expire/evict/reorg) with hand-polled pool tasks; full recomputation of the pool's bookkeeping from a dump after every task",
+ "C11": pool("§6 C11, §4 simnode pool task mode", "deterministic simulation of pool operation histories (submit/RBF/remove/expire/evict/reorg) with hand-polled pool tasks; full recomputation of the pool's bookkeeping from a dump after every task",
    "After every completed pool task the dump of entries, links, edges, ancestor/descendant aggregates, per-status counters and totals is recomputed from the entries alone and compared; the ancestor limit and double-spend freedom are checked. Two genuine defects in the incremental aggregate maintenance were found and fixed."),
- "C04": pool("§8 C04, §5 E-NODE pool task mode with probes", "deterministic simulation of pool/chain histories with boundary-value probe transactions evaluated through the real pool (dry-run accept) and through the node's block verification, against an independent rule evaluator over the reference model's context",
-   "At arbitrary points of seeded histories (reorgs, mined templates, pooled ancestors) probe transactions with exactly one field at/just before/just after a rule boundary (six since kinds and malformed encodings, cellbase maturity, capacity and occupied size, liveness/duplicates, cell and header deps, a witness-dependent lock) are judged by the pool and by block verification; the verdicts must equal the evaluator's in both directions. Exploration is the right level: contexts x probes is unbounded; boundaries are hit by construction because probes are built from the context at probe time."),
- "C12": pool("§8 C12, §5 E-NODE pool task mode", "deterministic simulation interleaving submissions (suspended at yield points), mined templates and model-built competing branches; pool vs reference-chain model at quiescent points",
+ "C04": pool("§6 C04, §4 simnode pool task mode with probes", "deterministic simulation of pool/chain histories with boundary-value probe transactions evaluated through the real pool (dry-run accept) and through the node's block verification, against an independent rule evaluator over the reference model's context",
+   "At arbitrary points of seeded histories (reorgs, mined templates, pooled ancestors) probe transactions with exactly one field at/just before/just after a rule boundary (six since kinds and malformed encodings, cellbase maturity, capacity and occupied size, liveness/duplicates, cell and header deps, a witness-dependent lock) are judged by the pool and by block verification; the verdicts must equal the evaluator's in both directions. A chain-mode part commits conflicting twins of valid candidates that break one rule of their own (capacity, occupied size, NervosDAO maximum withdraw) through mutant blocks anywhere in trees with reorganisations. Exploration is the right level: contexts x probes is unbounded; boundaries are hit by construction because probes are built from the context at probe time."),
+ "C12": pool("§6 C12, §4 simnode pool task mode", "deterministic simulation interleaving submissions (suspended at yield points), mined templates and model-built competing branches; pool vs reference-chain model at quiescent points",
    "At every quiescent point the pool must hold no committed transaction, no transaction whose input/dep is unknown to chain+pool, no double spend, and every entry's stage must equal the model's proposal-window membership. Three genuine defects (stale gap stage after reorg, expiry orphaning descendants, children of un-re-addable detached transactions) were found and fixed. The 'admissible detached txs are back' direction is not asserted."),
- "C13": pool("§8 C13, §5 E-NODE pool task mode", "deterministic simulation: templates requested at simulator-chosen instants are sealed and fed to the node's own chain stages; self-oracle plus independent model re-derivation",
+ "C13": pool("§6 C13, §4 simnode pool task mode", "deterministic simulation: templates requested at simulator-chosen instants are sealed and fed to the node's own chain stages; self-oracle plus independent model re-derivation",
    "Every template requested (also while block-assembler updates are still queued, right after reorgs, with uncles/proposals/commits) is sealed and imported by the same node: it must be accepted and become the tip when it names the tip, transactions parents-first; the reference model re-derives epoch, reward, DAO, chain root, window and uncle rules for each. Templates naming a stale parent are only stored as side blocks; they are counted as not verified, never as passes."),
 })
 
-CHECKS["C17"] = dict(engine="simstruct", category="exploration", design_ref="§8 C17, §5 E-STRUCT",
+CHECKS["C17"] = dict(engine="simstruct", category="exploration", design_ref="§6 C17, §4 simstruct",
    technique="deterministic simulation of operation histories on the real OrphanBlockPool, InflightBlocks (simulated clock), HeaderMap (simulator-placed spills, real sled tier) and skip-list ancestor/locator lookup against trivial reference models; bounded-exhaustive for short sequences, seeded random beyond",
    text="Each structure is driven by seeded operation sequences and compared with a map/set/parent-walk model after every operation; spills of the header map are simulator decisions placed between operations, request time-outs run on the simulated clock; all operation sequences up to a small length are enumerated, longer ones sampled. Oracles are one-sided exactly where the code is free (which peers prune evicts, release of non-leaders).",
    note="Real structures through verif-hooks re-exports; concurrent access to a structure is not explored (the property places spills between operations); OrphanBlockPool::get_block is not covered.")
 
-CHECKS["C05"] = dict(engine="simscript", category="exploration", design_ref="§8 C05, §5 E-SCRIPT",
+CHECKS["C05"] = dict(engine="simscript", category="exploration", design_ref="§6 C05, §4 simscript",
    technique="deterministic simulation of script execution interruption: chunk partitions (all single split points for small programs), captured-state rebuilds, and Suspend/Resume/Stop signals delivered at simulator-chosen VM cycle counts through a SimMachine wrapper, compared with the uninterrupted run",
    text="For a corpus of 45 program cases (VM 0/1/2; exec, spawn/pipe/wait trees incl. generated spawn DAGs, syscalls, secp256k1, TYPE_ID) the uninterrupted verify() gives (verdict, cost); every explored interruption schedule (chunk budgets, state dropped and rebuilt, signal schedules pinned to exact cycle counts, budgets cost-1/cost/cost+1) must give the same verdict and total cycles, budgets below cost must report the cycle limit. One defect fixed (budget restarting after a pause), one recorded as known finding (suspension with unprocessed pipe I/O).",
    note="Real TransactionScriptsVerifier/Scheduler/ckb-vm with the repo's compiled test programs; mock data loader; the signal path is driven through the generic DefaultMachineRunner seam (SimMachine), tokio runtime hand-driven. Programs are a fixed corpus plus generated spawn DAGs, not all programs.")
 
-CHECKS["C16"] = dict(engine="simpeer", category="exploration", design_ref="§8 C16, §5 E-PEER",
+CHECKS["C16"] = dict(engine="simpeer", category="exploration", design_ref="§6 C16, §4 simpeer",
    technique="deterministic simulation of a corrupting transport feeding the real decoders/accessors/context-free verifiers and the real Synchronizer/Relayer/LightClient/BlockFilter handlers, plus simulated relay rounds through the real Relayer::reconstruct_block with seeded pool contents and peer answers",
    text="Second half (genuine simulation of relay state): compact blocks with random/illegal prefilled sets, pools holding random subsets plus colliding entries, peer answers that are subsets/supersets/wrong content; the result must be exactly the committed block, a precise Missing report, or a Collided/Error verdict, never another block. First half: valid messages of every protocol corrupted by seeded transport faults (bit flips, truncation, splices, extreme length fields, compress flag) must decode-or-fail without panic, within the decompression bound, canonically re-encode, and survive every accessor and context-free verifier; this half is generated-input checking carried by a transport-corruption fault and is labelled so in the evidence. Seven panics reachable from untrusted bytes were fixed; three accessor-level/third-party ones are recorded as known findings.",
    note="One real node per OS process for the reconstruct/handlers parts (RocksDB on tmpfs, tx-pool service, SyncShared, Relayer, SimChain); short-id collisions are emulated; network-private handlers (ping, discovery, identify) are only decoded and walked.")
-CHECKS["C18"] = dict(engine="simidx", category="exploration", design_ref="§8 C18",
+CHECKS["C18"] = dict(engine="simidx", category="exploration", design_ref="§6 C18",
    technique="deterministic simulation of an indexer-sync actor following a simulated chain through reorganisations (append/rollback/lag/prune) against the real ckb-indexer; answers compared with a naive filter over the model's live cells and transaction history; rollback-inverts-append checked on answers and KV rows",
    text="After every append and rollback the real Indexer's tip, get_cells, get_transactions (grouped/ungrouped) and get_cells_capacity for generated search keys (exact/prefix, all filter kinds, both orders, cursor paging to exhaustion) must equal a direct filter over the model chain ending at the indexer's tip; arriving at a block by rollback must restore the answers and the live-prefix KV rows recorded when it was first appended, within the retention bound derived from prune. One defect fixed, two recorded as known findings (prefix key bleed, tip after rolling back genesis).",
    note="Real Indexer over RocksDB (tmpfs) through a verif-hooks wrapper; the sync actor mimics IndexerSyncService::try_loop_sync; rich-indexer (sqlite), custom rhai filters, the pool overlay and the real sync service/secondary DB are not covered.")
 
 NA = {
- "C15": "pure encode/decode and hash functions of one value: no schedule, clock, fault or interleaving for a simulator to own (DESIGN.md §8 C15)",
+ "C15": "pure encode/decode and hash functions of one value: no schedule, clock, fault or interleaving for a simulator to own (DESIGN.md §6 C15)",
 }
 PENDING = "engine not built yet in this session (see DESIGN.md §13 build order); not claimed"
 
